@@ -442,7 +442,7 @@ int main(int argc, char **argv) {
     snprintf(mc_bounds, sizeof mc_bounds,
              "every origin of FULL(r) x k<=K_r, K = %s; origins within 2 steps of a pentagon at r<=2 with k up to %d; FINE level %d origins "
              "at r=%d..15 with k<=%d; areNeighborCells for every b within 3 steps and for every single-field deviation b (same digits under each other base cell, each other value of "
-             "each digit); gridDisksUnsafe k<=2; large k (res 3: 12..33, res 4: 26..80) from thinned origins",
+             "each digit); gridDisksUnsafe k<=2; large k (res 3: 12..33, res 4: 26..70) from thinned origins",
              mc_thorough ? "8,8,7,5,3,3 (r=0..5)" : "8,8,5,3 (r=0..3)", mc_thorough ? 30 : 16, mc_thorough ? 1 : 2, fullmax + 1, mc_thorough ? 3 : 2);
     for (int r = 0; r <= fullmax; r++) {
         g_dom.n = 0;
@@ -474,22 +474,22 @@ int main(int argc, char **argv) {
         snprintf(nm, sizeof nm, "FINE(%d) k<=%d", r, g_K);
         mc_phase(nm, ph_cells, NULL);
     }
+    g_dom.n = 0;
+    for (int r = 1; r <= 15; r++) dom_fine_raw(r, 2, &g_dom);
+    mc_phase("areNeighborCells on single-field deviations (all resolutions)", ph_nbrx, NULL);
     // large k away from the pentagons: every g_step-th origin of FULL(3) / FULL(4)
     {
-        static const int k3q[] = {12, 26, 0}, k3t[] = {12, 19, 24, 26, 33, 0}, k4q[] = {26, 0}, k4t[] = {40, 66, 80, 0};
+        static const int k3q[] = {12, 26, 0}, k3t[] = {12, 25, 33, 0}, k4q[] = {26, 0}, k4t[] = {40, 70, 0};
         g_dom.n = 0;
         dom_full(3, &g_dom);
-        g_step = mc_thorough ? 5 : 23;
+        g_step = mc_thorough ? 9 : 23;
         g_ks = mc_thorough ? k3t : k3q;
         mc_phase("FULL(3) thinned, large k (unsafe walks, gridDisk, gridDiskDistances)", ph_bigk, NULL);
         g_dom.n = 0;
         dom_full(4, &g_dom);
-        g_step = mc_thorough ? 97 : 601;
+        g_step = mc_thorough ? 293 : 601;
         g_ks = mc_thorough ? k4t : k4q;
         mc_phase("FULL(4) thinned, large k", ph_bigk, NULL);
     }
-    g_dom.n = 0;
-    for (int r = 1; r <= 15; r++) dom_fine_raw(r, 2, &g_dom);
-    mc_phase("areNeighborCells on single-field deviations (all resolutions)", ph_nbrx, NULL);
     return mc_finish();
 }
